@@ -181,6 +181,8 @@ func (s *Solver) define(t *Term, sb *strings.Builder) {
 	}
 }
 
+var useTactic = os.Getenv("GOSYM_TACTIC") != "0"
+
 type solverConflict struct{ name string }
 
 type Result int
@@ -307,7 +309,11 @@ func (s *Solver) checkModel(pc []*Term, extra []*Term, syms []*Term, text string
 		sb.WriteString(text)
 		sb.WriteString("\n")
 	}
-	sb.WriteString("(check-sat)\n")
+	if useTactic {
+		sb.WriteString("(check-sat-using qfbv)\n")
+	} else {
+		sb.WriteString("(check-sat)\n")
+	}
 	s.send(sb.String())
 	quick := time.Duration(s.QuickMs) * time.Millisecond
 	if quick == 0 {
@@ -528,10 +534,25 @@ func OneShot(kind string, script string, timeout time.Duration, syms []*Term) (R
 	outb, _ := cmd.Output()
 	out := string(outb)
 	lines := strings.SplitN(strings.TrimSpace(out), "\n", 2)
+	first := strings.TrimSpace(lines[0])
+	if first == "unsat" {
+		// the trailing get-value reports "model is not available": expected.
+		// Any other error line makes the answer inconclusive.
+		rest := ""
+		if len(lines) > 1 {
+			rest = lines[1]
+		}
+		for _, l := range strings.Split(rest, "\n") {
+			if strings.Contains(l, "(error") && !strings.Contains(l, "model is not available") && !strings.Contains(l, "cannot get value") && !strings.Contains(l, "Cannot get") {
+				return Unknown, nil, out
+			}
+		}
+		return Unsat, nil, out
+	}
 	if strings.Contains(out, "(error") {
 		return Unknown, nil, out
 	}
-	switch strings.TrimSpace(lines[0]) {
+	switch first {
 	case "unsat":
 		return Unsat, nil, out
 	case "sat":
